@@ -129,15 +129,6 @@ func (l *Leaf) kind() string {
 	}
 }
 
-func (n *Node) kinds(m map[string]bool) {
-	if n.Leaf != nil {
-		m[n.Leaf.kind()] = true
-		return
-	}
-	n.L.kinds(m)
-	n.R.kinds(m)
-}
-
 func (n *Node) shape() string {
 	if n.Leaf != nil {
 		return "leaf"
@@ -704,22 +695,47 @@ func (w *world) maskNames(mask int) string {
 	return w.names(ix)
 }
 
-func sigOf(v verdict, variant string, n *Node) string {
-	km := map[string]bool{}
-	n.kinds(km)
-	var ks []string
-	for k := range km {
-		ks = append(ks, k)
+func (n *Node) leaves(out *[]*Leaf) {
+	if n.Leaf != nil {
+		*out = append(*out, n.Leaf)
+		return
 	}
-	sort.Strings(ks)
-	top := "leaf"
-	if n.Leaf == nil {
-		top = n.Op
-		if n.L.Leaf == nil || n.R.Leaf == nil {
-			top = "nested-" + n.Op
+	n.L.leaves(out)
+	n.R.leaves(out)
+}
+
+// sigOf builds the class signature: clause/direction/variant + the discriminating feature. For a compound
+// expression each operand leaf is queried alone on the same index: if one of them is already wrong the class
+// is that leaf's kind (key present/absent × operator × literal class), otherwise the class is the combination.
+func (w *world) sigOf(o *opened, mask int, v verdict, variant string, n *Node) string {
+	if n.Leaf != nil {
+		return vlib.JoinSig("MeasurementSeriesByExprIterator", v.dir, variant, "leaf:"+n.Leaf.kind())
+	}
+	var ls []*Leaf
+	n.leaves(&ls)
+	var bad []string
+	for _, l := range ls {
+		bare := *l
+		bare.Paren, bare.Swap = false, false
+		ln := lf(&bare)
+		e, err := influxql.ParseExpr(ln.text())
+		if err != nil {
+			continue
+		}
+		var lv verdict
+		if p, _ := vlib.Guard(func() { lv = w.judge(o, mask, ln, e) }); p || lv.bad {
+			bad = append(bad, l.kind())
 		}
 	}
-	return vlib.JoinSig("MeasurementSeriesByExprIterator", v.dir, variant, top, strings.Join(ks, "+"))
+	if len(bad) > 0 {
+		sort.Strings(bad)
+		return vlib.JoinSig("MeasurementSeriesByExprIterator", v.dir, variant, "operand-leaf-wrong-alone:"+bad[0])
+	}
+	top := n.Op
+	if n.L.Leaf == nil || n.R.Leaf == nil {
+		top = "nested:" + n.shape()
+	}
+	return vlib.JoinSig("MeasurementSeriesByExprIterator", v.dir, variant, "operands-right-alone/combination:"+top)
 }
 
 func (w *world) describe(cs Case, v verdict) string {
@@ -864,7 +880,7 @@ func run(c *vlib.Ctx) {
 					c.Outcome(cls)
 					if v.bad {
 						cs := Case{mask, variant, n, text}
-						c.Violation(sigOf(v, variant, n), w.describe(cs, v), cs)
+						c.Violation(w.sigOf(o, mask, v, variant, n), w.describe(cs, v), cs)
 					}
 					if v.nontriv && c.WantSample() {
 						c.Sample(map[string]any{"variant": variant, "stored": w.maskNames(mask), "where": text, "selected": w.names(v.got.selected)})
